@@ -9,7 +9,7 @@
    cmp                     (`cur OP other` for OP in == != < <= > >=, printed as six 0/1 digits)
    sizes                   (`sz(size,empty,full|-,max_size)`)
    mset kind=fs|fi|fv cmp=.. c=[..]            (flat_multiset construction, stateless; containers of capacity 8)
-   `het=1` selects the `K const&` overload: the key is a value of another type, compared through its integer
+   `het=1` / `het=2` select the `K const&` overload (2: the band key {k, k+1}, equivalent to up to two elements): the key is a value of another type, compared through its integer
    payload (`Het` instance `ek x k = lt x k`, `ke k x = lt k x`).
    every answer is followed by the state of the current set: ` n=<size> d=[..]`                     -/
 import Tetl.Proto
@@ -52,6 +52,10 @@ def lkOf : String → Option Lk
 /-- the heterogeneous key of the harness (`HKey{v}`) compares through its payload -/
 def hetOf (lt : Nat → Nat → Bool) : Het Nat Nat := { ek := fun x k => lt x k, ke := fun k x => lt k x }
 
+/-- the heterogeneous key type selected by a line -/
+def hetSel (l : Line) (lt : Nat → Nat → Bool) : Het Nat Nat :=
+  if (l.nat? "het").getD 0 == 2 then bandOf lt else hetOf lt
+
 def fmtIns : InsRes → String
   | .inserted p => s!"ins({p},1)"
   | .exists_ p => s!"ins({p},0)"
@@ -76,7 +80,7 @@ def fmtXOut (hint : Bool) (size : Nat) : XOut Nat → String
 def fmtSt (l : List Nat) : String := s!" n={l.length} d={fmtNatList l}"
 
 def parseBase (l : Line) : Option (Op Nat Nat × Bool) :=
-  let het := (l.nat? "het").getD 0 == 1
+  let het := (l.nat? "het").getD 0 == 1 || (l.nat? "het").getD 0 == 2
   match l.op with
   | "insert" =>
     if (l.str? "via").getD "insert" == "hint" then
@@ -153,13 +157,13 @@ def step (st : DState) (l : Line) : DState × String :=
               | .base .extract => do
                 let (l', c) ← fvExtract lv.cap x.cur
                 .ok ({ x with cur := l' }, .base (.elems c))
-              | .base (.lookup ..) | .base (.hlookup ..) | .cmp | .sizes => C09.xstep .fs lv.lt (hetOf lv.lt) elemNat lv.cap x op
+              | .base (.lookup ..) | .base (.hlookup ..) | .cmp | .sizes => C09.xstep .fs lv.lt (hetSel l lv.lt) elemNat lv.cap x op
               | _ => .error (.pre "flat_set over inplace_vector: the member does not compile")
-            else C09.xstep lv.kind lv.lt (hetOf lv.lt) elemNat lv.cap x op
+            else C09.xstep lv.kind lv.lt (hetSel l lv.lt) elemNat lv.cap x op
           match r with
           | .ok (x', o) => (.ok x', fmtXOut hint x'.cur.length o ++ fmtSt x'.cur)
           | .error e => (.error e, e.fmt)
-      let (s', o) := Spec.xstep isSet lv.lt (hetOf lv.lt) elemNat lv.cap lv.spec op
+      let (s', o) := Spec.xstep isSet lv.lt (hetSel l lv.lt) elemNat lv.cap lv.spec op
       (some { lv with model := m', spec := s' }, ms ++ "\t" ++ fmtXOut hint s'.cur.length o ++ fmtSt s'.cur)
     | _, _ => bad
 
